@@ -1,6 +1,6 @@
 (* C13 — proofs about Model/Surface.v *)
 From PG Require Import Lib.Strs Model.Tags Model.Surface Proofs.Tags.
-From Coq Require Import Lia PeanoNat.
+From Coq Require Import Lia PeanoNat Permutation.
 
 (* ====================================================================================== *)
 (* Part 1 — grouping: MocksEmitter (first tag, raw) vs EndpointsEmitter (every tag, key)   *)
@@ -253,6 +253,63 @@ Proof.
   specialize (H a Ha). rewrite forallb_forall in H. specialize (H b Hb).
   rewrite K, str_eqb_refl in H. simpl in H. apply str_eqb_eq. exact H.
 Qed.
+
+(* ---------- same tag properties on MockAPIClient and APIClient (under the guards) ---------- *)
+Section SameTags.
+  Variable method_name tag_key tag_attr tag_class : str -> str.
+  Variable score : str -> bool * N * N.
+  Variable py_ident : str -> bool.
+
+  Lemma emitted_tags : forall l, map o_tags (emitted_ops method_name l) = map o_tags l.
+  Proof.
+    assert (G : forall l used, map o_tags (dedup_go method_name used l) = map o_tags l).
+    { intros l used. pose proof (dedup_go_shape method_name l used) as S.
+      induction S as [|a b l1 l2 H _ IH]; simpl; [reflexivity|].
+      destruct (suffixed_tags _ _ H) as (E & _). rewrite E, IH. reflexivity. }
+    intro l. unfold emitted_ops, dedup_ops. rewrite !G. reflexivity.
+  Qed.
+
+  Lemma first_tag_tags : forall a b, map o_tags a = map o_tags b -> map first_tag a = map first_tag b.
+  Proof.
+    induction a as [|x a IH]; destruct b as [|y b]; simpl; intro H; try discriminate; [reflexivity|].
+    inversion H as [[H1 H2]]. unfold first_tag at 1 3. rewrite H1. f_equal. apply IH, H2.
+  Qed.
+  Lemma guard_F13a_tags : forall a b, map o_tags a = map o_tags b -> guard_F13a a = guard_F13a b.
+  Proof.
+    induction a as [|x a IH]; destruct b as [|y b]; simpl; intro H; try discriminate; [reflexivity|].
+    inversion H as [[H1 H2]]. rewrite H1. f_equal. apply IH, H2.
+  Qed.
+  Lemma guard_F13b_tags : forall a b, map o_tags a = map o_tags b -> guard_F13b tag_key a = guard_F13b tag_key b.
+  Proof. intros a b H. unfold guard_F13b. rewrite (first_tag_tags a b H). reflexivity. Qed.
+
+  (* Under single_tag [F13a], tags_spelled_uniformly [F13b] and pairwise distinct identifier module names
+     (the C07 guard: negation of F07e / fixed F07d): mock_client.py and client.py are both importable and
+     MockAPIClient has exactly the tag properties of APIClient — for every operation list *)
+  Theorem same_tags_partial : forall l,
+    guard_F13a l = true -> guard_F13b tag_key l = true ->
+    modules_ok tag_key tag_attr score py_ident (emitted_ops method_name l) = true ->
+    same_tags method_name tag_key tag_attr tag_class score py_ident l.
+  Proof.
+    intros l Ha Hb Hm. set (e := emitted_ops method_name l) in *.
+    pose proof (emitted_tags l) as ET. fold e in ET.
+    rewrite <- (guard_F13a_tags e l ET) in Ha. rewrite <- (guard_F13b_tags e l ET) in Hb.
+    pose proof (tags_agree tag_key score e (guard_F13a_single e Ha) (guard_F13b_uniform tag_key e Hb)) as TA.
+    assert (M : map (fun tg : str * list op => tag_attr (fst tg)) (mock_groups e)
+                = map (fun kc : str * str => tag_attr (snd kc)) (emitter_tags tag_key score e)).
+    { rewrite TA, map_map. reflexivity. }
+    destruct (reachable method_name tag_key tag_attr tag_class score py_ident l Hm) as (t & Pt & Perm & _ & _).
+    fold e in Perm.
+    unfold modules_ok in Hm. apply andb_true_iff in Hm. destruct Hm as [Hn Hi].
+    exists (map (fun tg : str * list op => tag_attr (fst tg)) (mock_groups e)), (map fst t).
+    split; [|split].
+    - unfold mock_props. fold e. rewrite M, Hn, Hi. reflexivity.
+    - unfold client_props. unfold props_of in Pt. rewrite Pt. reflexivity.
+    - intro x. rewrite M.
+      assert (Q : Permutation (map fst t) (map (fun kc : str * str => tag_attr (snd kc)) (emitter_tags tag_key score e))).
+      { apply (Permutation_map fst) in Perm. rewrite map_map in Perm. exact Perm. }
+      split; intro H; [apply (Permutation_in _ (Permutation_sym Q)), H | apply (Permutation_in _ Q), H].
+  Qed.
+End SameTags.
 
 (* ====================================================================================== *)
 (* Part 2 — the line scanners are exact on every well-formed signature                     *)
@@ -800,4 +857,18 @@ Definition sig_star : sig :=
      s_ret := [73;116;101;109]; s_kind := Coroutine; s_style := StarStyle |}.
 Theorem wf_nonvacuous : wf_sig sig_stream = true /\ wf_sig sig_star = true /\ proto_kw sig_stream = k_def
   /\ mock_gen sig_stream = true /\ mock_gen sig_star = false.
+Proof. repeat split; vm_compute; reflexivity. Qed.
+
+(* F13c — the divergence is reachable: a component schema whose class name contains "AsyncIterator".
+   As the RETURN type of an ordinary (coroutine) operation the Protocol declares a plain `def` and the mock
+   becomes an async generator; as a BODY parameter only the mock does (sig_disagree above). *)
+Definition s_AsyncIteratorInfo : str := k_AsyncIterator ++ [73;110;102;111].
+Definition sig_ai_ret : sig :=
+  {| s_name := [103;101;116]; s_args := [ASelf]; s_ret := s_AsyncIteratorInfo; s_kind := Coroutine; s_style := Standard |}.
+Theorem refuted_F13c :
+  guard_F13c [s_AsyncIteratorInfo] = false
+  /\ wf_args sig_ai_ret = true /\ s_kind sig_ai_ret = Coroutine
+  /\ proto_kw sig_ai_ret = k_def /\ mock_gen sig_ai_ret = true
+  /\ wf_args sig_disagree = true /\ s_kind sig_disagree = Coroutine
+  /\ proto_kw sig_disagree = k_async_def /\ mock_gen sig_disagree = true.
 Proof. repeat split; vm_compute; reflexivity. Qed.
